@@ -11,7 +11,7 @@ META = {
     "C01": dict(cat="model_checking", eng="E1-sched", ref="3 (scheduler group), 1.1",
                 tech="stateless deviation-bounded exploration of the real scheduler + per-doer trace automaton",
                 text="Every execution of the closed system (real Doist/DoDoer/Doer code + scripted doers) with up to 2 deviations from default answers over all small doer forests is run (thorough: forests of depth <= 3, and 3 deviations on forests of <= 2 leaves); the alphabet includes raise / KeyboardInterrupt / failing and completing enter / extend / remove of self, adjacent and far siblings and extend/remove reaching into a sibling DoDoer; a trace automaton checks enter recur* (clean|cease|abort) exit per doer. Bounded-exhaustive: a counterexample within the bound cannot be missed.",
-                note="Trusted: CPython generator semantics, the harness leaf templates, the trace monitor. Bounds: forests <= 4 leaves, depth <= 2/3, horizon 3 recurs; bound 3 only on forests of <= 2 leaves (a 4-leaf forest has ~10^7 executions at bound 3)."),
+                note="Trusted: CPython generator semantics, the harness leaf templates, the trace monitor. Bounds: forests <= 4 leaves (depth <= 2) / <= 3 leaves (depth 3), horizon 3 recurs; bound 3 only on forests of <= 2 leaves."),
     "C02": dict(cat="model_checking", eng="E1-sched", ref="3 (scheduler group)",
                 tech="stateless deviation-bounded exploration + exit-window order monitor",
                 text="Same closed system, alphabet focused on stops (raise, failing enter, limit, remove of adjacent / far siblings and of the parent, extend, extend/remove reaching into a sibling DoDoer from outside its pass): inside every scheduler's exit window the alive children must exit in reverse enter order, completely, before do() returns/raises.",
